@@ -868,4 +868,87 @@ def run (s : St) : List Op → Option St
   | [] => some s
   | op :: ops => (step s op).bind (fun s => run s ops)
 
+/-! ### the token list and String operands built from (ptr, len)
+
+    `split` fills a `List<String>` that `join` reads; `append/prepend(const String&)` are also called with a
+    temporary `String(ptr, len)`.  The extended state carries the token list beside the String variables. -/
+
+structure XSt where
+  st : St
+  toks : List (List Byte)
+
+inductive XOp where
+  | base (op : Op)
+  | split (v : Nat) (seps : List Nat) (skipEmpty : Bool)     -- `v.split(tokens, seps, skipEmpty)`
+  | joinT (v : Nat) (sep : Nat)                               -- `v.join(tokens, sep)`
+  | appendL (v : Nat) (src : List Nat)                        -- `v.append(String(ptr, len))`
+  | prependL (v : Nat) (src : List Nat)                       -- `v.prepend(String(ptr, len))`
+
+def xstep (x : XSt) : XOp → Option XSt
+  | .base op => (step x.st op).map (fun s => { x with st := s })
+  | .split v seps skip =>
+    if validVar x.st v then (split x.st v seps skip).map (fun r => { st := r.1, toks := r.2 }) else none
+  | .joinT v sep =>
+    if validVar x.st v then (join x.st v x.toks sep).map (fun s => { x with st := s }) else none
+  | .appendL v src =>
+    if validVar x.st v then do
+      let t := userVars x.st
+      let s ← ctorPtr x.st (t + 1) (src.map some)
+      let s ← appendS s v (t + 1)
+      pure { x with st := setEmpty s (t + 1) }
+    else none
+  | .prependL v src =>
+    if validVar x.st v then do
+      let t := userVars x.st
+      let s ← ctorPtr x.st (t + 1) (src.map some)
+      let s ← prependS s v (t + 1) t
+      pure { x with st := setEmpty s (t + 1) }
+    else none
+
+def xrun (x : XSt) : List XOp → Option XSt
+  | [] => some x
+  | op :: ops => (xstep x op).bind (fun x => xrun x ops)
+
+/-! ### pointer arguments into the string's own storage
+
+    The header documents nothing about `s.append((const char*)s + off, len)` and relatives; the code takes the
+    pointer, detaches (which may delete the block the pointer points into) and then copies from the pointer.
+    These functions model exactly that (the pointer is the pair (`base`, offset) the C string view returned);
+    Props.lean states when they are safe and shows that in general they are not (`alias_append_faults`). -/
+
+/-- `s.append((const char*)s + off, len)` with `off + len ≤ length()` -/
+def appendAlias (s : St) (v off len : Nat) : Option St := do
+  let s ← cview s v
+  let d0 ← desc s v
+  if off + len > d0.len then none
+  else do
+    let newLen := d0.len + len
+    let s ← detach s v d0.len newLen
+    let dv ← desc s v
+    let src ← rdRange s d0.base (d0.off + off) len      -- the OLD storage: a deleted block is a fault
+    putTail s v dv.len src newLen
+
+/-- the two `Memory::copy`s and the terminator of `prepend` into the detached block -/
+def putFront (s : St) (v : Nat) (a b : List Byte) : Option St := do
+  let dv ← desc s v
+  let m ← memOf s dv.base
+  let m ← wr m 0 a
+  let m ← wr m a.length b
+  let m ← wr m (a.length + b.length) [some 0]
+  writeOwn s v m (a.length + b.length)
+
+/-- `s.prepend((const char*)s + off, len)` with `off + len ≤ length()` -/
+def prependAlias (s : St) (v off len tmp : Nat) : Option St := do
+  let s ← cview s v
+  let d0 ← desc s v
+  if off + len > d0.len then none
+  else do
+    let s ← ctorCopy s tmp v
+    let dc ← desc s tmp
+    let s ← detach s v 0 (len + dc.len)
+    let a ← rdRange s d0.base (d0.off + off) len      -- the OLD storage, kept alive by `copy`
+    let b ← content s tmp
+    let s ← putFront s v a b
+    pure (setEmpty s tmp)
+
 end Nstd.Str
